@@ -66,6 +66,8 @@ class Stats:
 
 def note_distribution(st, recipe, geo, bm):
     d = st.dist
+    d['use:' + recipe.get('use', 'fresh')] += 1
+    if any(o[0] == 'convert' for o in recipe.get('ops', [])): d['late:geometry converted before (then edited / converted again)'] += 1
     last = {}
     for j, o in enumerate(recipe.get('ops', [])): last[o[0]] = j
     if 'atm' in last and last['atm'] > last.get('surface', -1): d['late:atmosphere_type assigned on the finished geometry'] += 1
@@ -83,7 +85,7 @@ def note_distribution(st, recipe, geo, bm):
     d['permeability_angle:' + ('0' if geo.permeability_angle == 0 else 'nonzero')] += 1
     d['tilted:' + ('yes' if (geo.gdcx or geo.gdcy) else 'no')] += 1
     ops = [o[0] for o in recipe.get('ops', [])]
-    for o in ('rotate', 'translate', 'refine', 'refine_layers', 'centres', 'copy_layers', 'add_layers', 'rename_col'):
+    for o in ('rotate', 'translate', 'refine', 'refine_layers', 'centres', 'copy_layers', 'add_layers', 'rename_col', 'split', 'move_centre'):
         if o in ops: d['op:' + o] += 1
     # hypotheses of the theorems, measured on the real object
     lays = geo.layerlist
@@ -129,7 +131,7 @@ def eval_cases(cases, outs, st, keep=False):
     one small picklable record per case; counters go to `st`."""
     res = []
     for i, (recipe, geo, bm) in enumerate(cases):
-        grid, err = L.run_impl(geo, bm)
+        grid, err = L.run_impl(geo, bm, recipe.get('use', 'fresh'))
         sc = L.Scales(geo)
         note_distribution(st, recipe, geo, bm)
         diffs = L.compare(geo, bm, grid, err, L.parse_model(outs[i]), sc) if outs is not None else None
@@ -295,7 +297,7 @@ def run(ctx):
                 'the shipped irregular geometries g1..g7 (g7 and one large one in the quick tier, all in the thorough tier), column refinements of both (triangular transition columns) '
                 'and layer refinements, then rotated/translated, atmosphere type 0/1/2, block order None/layer_column/dmplex, permeability angle, GDCX/GDCY tilt, '
                 'atmosphere volume/connection, layer centres off the mid-point, explicit column surfaces (default; on a layer boundary; above the top layer; thin slivers; inside the bottom layer; sloping), '
-                'no block map / empty / partial / total block map; the configuration is also REACHED BY ASSIGNMENT on the finished geometry: atmosphere_type (35 %) and block_order (20 %) set after the surfaces, columns renamed (20 %), surfaces reassigned, the layer structure replaced by copy_layers_from / add_layers with another top elevation under default or file surfaces (30 %).  A case is distinct by its recipe and non-trivial when the grid has rock blocks.')
+                'no block map / empty / partial / total block map; the configuration is also REACHED BY ASSIGNMENT on the finished geometry: atmosphere_type (35 %) and block_order (20 %) set after the surfaces, columns renamed (20 %), surfaces reassigned, the layer structure replaced by copy_layers_from / add_layers with another top elevation under default or file surfaces (30 %); 30 % of the geometries were already converted once and then edited (split_column, column centres assigned) before the conversion under test; the grid under test is a fresh one (60 %), the second one built from the same geometry and block map after the first was written into by its owner (25 %), or a grid object that already held another model (15 %).  A case is distinct by its recipe and non-trivial when the grid has rock blocks.')
     ctx.trusted += ['Coq 8.16.1 kernel (coqc); vm_compute only on closed terms inside Example proofs; no native_compute; Props.v is axiom-free, PropsR.v (the same connection statements read in R with sqrt) uses the stdlib axioms of the classical reals',
                     'tools/props/c04_translate.py (AST -> expression trees; atoms are pinned source text of look-ups) and the evaluator coq/C04/Kx.v with the environments of coq/C04/KernelTie.v (which model quantity each source look-up denotes)',
                     'coq/C04/FromGeo.v: hand transcription of mulgrids.py 790-881, 1381-1455, geometry.line_projection and t2grids.py 282-318, 341-434 (validated on every run by the correspondence, not derived from the source)',
@@ -340,7 +342,7 @@ def replay(ctx, data):
     if recipe is None:
         print('replay: no concrete input recorded'); return True
     geo, bm = L.build_geo(recipe, ctx.repo)
-    grid, err = L.run_impl(geo, bm)
+    grid, err = L.run_impl(geo, bm, recipe.get('use', 'fresh'))
     fails = []
     L.oracle(geo, bm, grid, err, L.Scales(geo), lambda k, o, r: fails.append((k, o, r)))
     for k, o, r in fails[:5]: print('replay: %s: observed %s; required %s' % (k, o, r))
